@@ -1417,7 +1417,7 @@ def _range_inclusive_new(M, a, info):
 def _into_iter(M, a, info):
     v = a[0]
     if type(v) is It: return v
-    if type(v) is Adt and segs(v.name)[-1] == 'Range': return v
+    if type(v) is Adt and segs(v.name)[-1] in ('Range', 'RangeFrom'): return v
     return It(_iterate(M, v))
 
 
@@ -1455,6 +1455,15 @@ def _iter_next(M, a, info):
             it.fields[0] = lo + 1
             return SOME(lo)
         return NONE()
+    if type(it) is Adt and segs(it.name)[-1] == 'RangeFrom':
+        # `for i in lo..`: never exhausted; the loop body has to leave it.  More than LOOP_LIMIT steps: reported, not unrolled
+        lo = it.fields[0]
+        if not is_sym(lo):
+            start = M.I.checked_ranges.setdefault(('from', id(it)), lo)
+            if lo - start > LOOP_LIMIT:
+                raise Unbounded('loop over an open range ran for more than %d iterations in %s' % (LOOP_LIMIT, M.I.stack[-1] if M.I.stack else '?'))
+        it.fields[0] = lo + 1
+        return SOME(lo)
     try:
         return SOME(next(it.gen))
     except StopIteration:
